@@ -1074,7 +1074,10 @@ def main(tier, seed):
                    "bad_alloc_reached_caller": totals.get("bad_alloc", 0),
                    "silent_degradation(result differs, no exception; not a violation)": totals.get("silent", 0),
                    "terminate_with_bad_alloc_under_fault(not a violation)": totals.get("terminate_bad_alloc_under_fault", 0),
-                   "spontaneous_bad_alloc(no fault armed)": totals.get("spontaneous", 0)}
+                   "spontaneous_bad_alloc(no fault armed)": totals.get("spontaneous", 0),
+                   "after_faults_reruns(E2: same call fault-free once its faults stopped)": totals.get("after", 0),
+                   "after_faults_result_or_allocation_count_differs_from_E0(counted, not a violation)": totals.get("after_diverged", 0),
+                   "after_faults_bad_alloc(no fault armed)": totals.get("after_bad_alloc", 0)}
     sample_hist = hist[0][:6] if hist else []
     cov = {
         "evaluations": int(evaluations),
